@@ -723,6 +723,10 @@ func (e *Env) evalCall(x *Expr) SVal {
 		}
 		s := e.inState(func() string { return app("select", t.get(lc), ref) })
 		return SVal{S: eq(s, "0"), Sort: "Bool"}
+	case "closed": // closed(ch): the channel has been closed
+		v := e.eval(x.Args[0])
+		cc := t.comp("CH.closed", "(Array Int Bool)")
+		return SVal{S: e.inState(func() string { return app("select", t.get(cc), v.S) }), Sort: "Bool"}
 	case "typeof":
 		v := e.eval(x.Args[0])
 		return SVal{S: app("dyn.type", v.S), Sort: "Int"}
